@@ -59,15 +59,15 @@ void counting_error_cb(const char *msg, void *) {
 }
 
 Buf::Buf(size_t n_) : n(n_) {
-    base = (uint8_t *)malloc(n + 32);
-    memset(base, 0xA5, 16); memset(base + 16, 0xCD, n); memset(base + 16 + n, 0x5A, 16);
+    base = (uint8_t *)malloc(n + 2 * PAD);
+    memset(base, 0xA5, PAD); memset(base + PAD, 0xCD, n); memset(base + PAD + n, 0x5A, PAD);
 }
 Buf::Buf(const uint8_t *src, size_t n_) : n(n_) {
-    base = (uint8_t *)malloc(n + 32);
-    memset(base, 0xA5, 16); if (n) memcpy(base + 16, src, n); memset(base + 16 + n, 0x5A, 16);
+    base = (uint8_t *)malloc(n + 2 * PAD);
+    memset(base, 0xA5, PAD); if (n) memcpy(base + PAD, src, n); memset(base + PAD + n, 0x5A, PAD);
 }
 bool Buf::intact() const {
-    for (int i = 0; i < 16; i++) if (base[i] != 0xA5 || base[16 + n + i] != 0x5A) return false;
+    for (int i = 0; i < PAD; i++) if (base[i] != 0xA5 || base[PAD + n + i] != 0x5A) return false;
     return true;
 }
 Buf::~Buf() {
